@@ -23,7 +23,7 @@ Fixpoint parse_src (fuel : nat) (ts : list Z) : option (src * list Z) :=
   | S f =>
       match ts with
       | 0 :: r :: np :: rest => Some (SPeer (zn r) (map zn (firstn (zn np) rest)) 0, skipn (zn np) rest)
-      | 6 :: r :: np :: rest => Some (SPeer (zn r) (map zn (firstn (zn np) rest)) 1, skipn (zn np) rest)
+      | 6 :: r :: _ :: rest => Some (SPeer (zn r) [] 1, rest)   (* error output; third token: ErrorCaptureOptions, not part of the wiring model *)
       | 7 :: r :: np :: rest => Some (SPeer (zn r) (map zn (firstn (zn np) rest)) 2, skipn (zn np) rest)
       | 1 :: h :: np :: rest => Some (SDelay (zn h) (map zn (firstn (zn np) rest)), skipn (zn np) rest)
       | 2 :: rest => Some (SNull, rest)
@@ -45,6 +45,19 @@ Fixpoint parse_src (fuel : nat) (ts : list Z) : option (src * list Z) :=
       end
   end.
 
+(* An extra FLOAT scalar field (line [14, label, code]: 0 -> 0.0, 1 -> -0.0, 2 -> 1.5, 3 -> -1.5).  The scalar part
+   of the key is compared with Value::equals, i.e. IEEE ==, under which 0.0 = -0.0: mirrored by giving both
+   the same number (known finding KF-C06-signed-zero-scalars-merged; docs/rank-fix-1.patch separates them). *)
+Definition fscalar (code : Z) : Z := if code <=? 1 then 1000 else 1000 + code.
+Definition add_fscalar (code : Z) (p : list stmt) : list stmt :=
+  match p with
+  | StNode d ins :: r =>
+      StNode {| nd_def := nd_def d; nd_sch := nd_sch d;
+                nd_scal := Some ((match nd_scal d with Some l => l | None => [] end) ++ [fscalar code]);
+                nd_uniq := nd_uniq d; nd_push := nd_push d |} ins :: r
+  | _ => p
+  end.
+
 Definition add_input (i : input) (p : list stmt) : list stmt :=
   match p with StNode d ins :: r => StNode d (ins ++ [i]) :: r | _ => p end.
 
@@ -57,8 +70,11 @@ Definition norm_out (kind out : Z) : Z :=
 Definition decode_line (p : list stmt) (l : line) : list stmt :=
   match l with
   | 2 :: _ :: kind :: def :: uniq :: out :: has_sc :: nsc :: rest =>
-      let special := (kind =? 3) || (kind =? 4) || (kind =? 5) in
+      let special := (kind =? 3) || (kind =? 4) || (kind =? 5) || (kind =? 6) || (kind =? 7) || (kind =? 8) in
+      (* kinds 6, 7: nested_<SinkAndOutG> / try_except_<SinkG> wrapper nodes (deferred-builder add_node): one
+         definition each, no scalars, an output - so they are interned like any value node *)
       StNode {| nd_def := if kind =? 4 then 100%nat else if kind =? 5 then 101%nat
+                          else if kind =? 6 then 102%nat else if kind =? 7 then 103%nat else if kind =? 8 then 104%nat
                           else if (def <? 0) || (7 <? def) then 7%nat else zn def;
                 nd_sch := [norm_out kind out];
                 nd_scal := if special then None else if has_sc =? 0 then None else Some (firstn (zn nsc) rest);
@@ -70,6 +86,7 @@ Definition decode_line (p : list stmt) (l : line) : list stmt :=
                                    in_rank := Z.odd rank; in_passive := 2 <=? rank |} p
       | None => p
       end
+  | 14 :: _ :: code :: _ => add_fscalar code p
   | 4 :: _ => StPlace :: p
   | 5 :: _ :: ph :: ref :: np :: rest => StBind (zn ph) (zn ref) (map zn (firstn (zn np) rest)) :: p
   | 6 :: _ :: a :: b :: _ => StDep (zn a) (zn b) :: p
